@@ -47,43 +47,43 @@ TEXT = {
     "C20": {
         "engine": "sanitizer lanes (asan, tsan, miri, memcheck)",
         "technique": "compiler sanitizers (ASan, TSan), the Miri undefined-behaviour interpreter and valgrind memcheck watching the stress/model/crash/fault/fuzz engines; log parsing with in-scope classification",
-        "level_text": "Four lanes, one tool family per build: ASan over linearizability histories, reuse/scan/memlimit races (with delays inside the scanner's pinned section, at pin/pread/retire/release points), model programs, crash workloads + recoveries, fuzzed opens, contention scenarios (incl. drop with failing device) and the O_DIRECT / AlignedBuffer / allocator paths driven directly; TSan (std rebuilt) over the concurrent engines; Miri (exact use-after-free / out-of-bounds / uninitialised / misalignment detection, many seeds = schedules) over a scan-vs-update-vs-delete-vs-expiry program and a persistent write/flush/read/reopen program on synchronous I/O; memcheck over the io_uring path, uninitialised bytes reaching pwrite, and the direct-I/O paths. Any report whose faulting or racing access lies in /repo/src, or a fatal signal of an instrumented engine, is a violation; dependency-internal reports (scc's unsynchronised bucket counters under TSan) are listed only.",
-        "level_note": "Red-zone tools miss intra-object and reused-slot errors (the Miri lane mitigates this for what it runs); Miri runs without its aliasing model and race detector because the dependency scc 2.4.0 trips them; kernel reads of a prematurely freed io_uring buffer are invisible to every tool here; only reached code is judged.",
+        "level_text": "Four lanes, one tool family per build: ASan over linearizability histories, reuse/scan/memlimit races (with delays inside the scanner's pinned section, at pin/pread/retire/release points), model programs, crash workloads + recoveries, fuzzed opens, contention scenarios (incl. drop with failing device) and the O_DIRECT / AlignedBuffer / allocator paths driven directly (long extents of 257-1024 blocks, failed SQEs, interrupted and failed io_uring_enter with the in-flight buffer monitor), values of 1-4 MiB read back from the device, and the io_uring fault pass of the fault engine; TSan (std rebuilt) over the concurrent engines; Miri (exact use-after-free / out-of-bounds / uninitialised / misalignment detection, many seeds = schedules) over a scan-vs-update-vs-delete-vs-expiry program and a persistent write/flush/read/reopen program on synchronous I/O; memcheck over the io_uring path, uninitialised bytes reaching pwrite, and the direct-I/O paths. Any report whose faulting or racing access lies in /repo/src, or a fatal signal of an instrumented engine, is a violation; dependency-internal reports (scc's unsynchronised bucket counters under TSan) are listed only.",
+        "level_note": "Red-zone tools miss intra-object and reused-slot errors (the Miri lane mitigates this for what it runs); Miri runs without its aliasing model and race detector because the dependency scc 2.4.0 trips them; kernel reads of a prematurely freed io_uring buffer are invisible to the tools themselves - the in-flight buffer monitor (hook events queued / completed / dropped) covers the I/O layer dropping its own reference too early, nothing else; only reached code is judged.",
     },
     "C15": {
         "engine": "migrate",
         "technique": "runtime differential monitoring of migrate() against an independent decoder, with file-system side-effect observation (hashes, directory listings, sentinels)",
-        "level_text": "Hundreds (quick) to thousands (thorough) of v1/v2 sources: devices written by the real engine in compatibility mode (updates, deletes, reuse, multi-block, TTLs, >256 and >4096 records) and synthesised corner cases (duplicates in either disk order, expired newest generation, record at the last block, v1 keys too long for v3, ambiguous markers with/without opt-in, damaged blocks, v3 source, active journal, pre-existing destination). On success the destination is v3, its independent decode equals the independent recovery of the source (expired winners kept) and the real recovery of a source copy, it reopens with TTL on (expired winners invisible, nothing older surfaces) and off, report counts match; the source hash never changes; failures leave the directory unchanged and an existing destination untouched; the CLI is run on a quarter of the cases plus usage probes (exit codes 0/1/2).",
-        "level_note": "Trusted: independent codec M6 as reference recovery; hashing/listing of the scratch directory. Concurrent external modification of the files is out of scope.",
+        "level_text": "Hundreds (quick) to thousands (thorough) of v1/v2 sources: devices written by the real engine in compatibility mode (updates, deletes, reuse, multi-block, TTLs, >256 and >4096 records) and synthesised corner cases (duplicates in either disk order, expired newest generation, record at the last block, v1 keys too long for v3, ambiguous markers with/without opt-in, damaged blocks, v3 source, active journal, pre-existing destination, destination created by somebody else while the migration is writing its temporary copy). On success the destination is v3, its independent decode equals the independent recovery of the source (expired winners kept) and the real recovery of a source copy, it reopens with TTL on (expired winners invisible, nothing older surfaces) and off, report counts match; the source hash never changes; failures leave the directory unchanged and an existing destination untouched; the CLI is run on a quarter of the cases plus usage probes (exit codes 0/1/2).",
+        "level_note": "Trusted: independent codec M6 as reference recovery; hashing/listing of the scratch directory. Concurrent external modification of the source is out of scope; the one external event produced is the appearance of a file at the destination path mid-migration.",
     },
     "C17": {
         "engine": "fuzzopen",
         "technique": "runtime robustness monitoring over generated and structure-aware forged device images (panic hook + catch_unwind, abort/hang detection from a parent process, byte-identity hashing)",
-        "level_text": "Thousands (quick) to hundreds of thousands (thorough) of images: valid v1/v2/v3 devices synthesised by the independent codec and damaged by 21 mutators including forgeries whose tokens and checksums are recomputed so that they pass the first gate. Every open must return (Ok or Err) without panic, abort or hang; stores that open must answer a probe workload (reads of every listed key, range, insert/update/delete/CAS/increment/patch/TTL, flush, drop) without panicking; files without a recognisable signature must be rejected unmodified; opens failing with InvalidDevice/InvalidMetadata must leave the file byte-identical. One genuine defect found and fixed (journal with generation u64::MAX replayed before the open failed).",
+        "level_text": "Thousands (quick) to hundreds of thousands (thorough) of images: valid v1/v2/v3 devices synthesised by the independent codec and damaged by 21 mutators including forgeries (among them journal headers that lie about entry count, state or generation with the checksum pair consistent or recomputed)  whose tokens and checksums are recomputed so that they pass the first gate. Every open must return (Ok or Err) without panic, abort or hang; stores that open must answer a probe workload (reads of every listed key, range, insert/update/delete/CAS/increment/patch/TTL, flush, drop) without panicking; files without a recognisable signature must be rejected unmodified; opens failing with InvalidDevice/InvalidMetadata must leave the file byte-identical. One genuine defect found and fixed (journal with generation u64::MAX replayed before the open failed).",
         "level_note": "Trusted: panic hook / process supervision; the independent codec as image writer (unmutated synthesised images must open to exactly their records, otherwise the run is inconclusive). Not coverage-guided.",
     },
     "C05": {
         "engine": "space + crash(partition)",
         "technique": "runtime invariant monitoring at quiescent points (exact partition of the data area from a state snapshot, cross-checked by an independent decode of the raw file), plus the same invariant on stores recovered from enumerated crash images",
-        "level_text": "Mixed-extent workloads on 48-256-block devices at 60-92 % fill with flushes at seeded points, periodic-flusher-only stretches, 1-8 workers, background readers deferring releases and delays at the retirement/release points. At each of the hundreds of quiescent points per run set: live extents and free runs tile [16,N) exactly (no overlap, no leak, nothing out of bounds), both free-space views agree and are coalesced, disk_usage and the persisted counters equal the live totals, the independent decoder finds each live record in its extent and only zero/complete-marker blocks elsewhere, and every key returns its own bytes. After clean reopen and for every store recovered from a crash image (crash engine, partition mode) the same partition holds. Epilogue: delete everything -> one free run = whole data area; the original fill program is accepted again.",
+        "level_text": "Mixed-extent workloads on 48-256-block v3, v2 and legacy v1 devices (record sizes often within a few bytes of a block multiple, where the format versions round differently) at 60-92 % fill with flushes at seeded points, periodic-flusher-only stretches, 1-8 workers, background readers deferring releases and delays at the retirement/release points. At each of the hundreds of quiescent points per run set: live extents and free runs tile [16,N) exactly (no overlap, no leak, nothing out of bounds), both free-space views agree and are coalesced, disk_usage and the persisted counters equal the live totals, the independent decoder finds each live record in its extent and only zero/complete-marker blocks elsewhere, and every key returns its own bytes. After clean reopen and for every store recovered from a crash image (crash engine, partition mode) the same partition holds. Epilogue: delete everything -> one free run = whole data area; the original fill program is accepted again.",
         "level_note": "Trusted: H4 snapshot accessor, independent codec M6. Quiescent-point invariant only. Reach = the fill levels / fragmentation classes reported.",
     },
     "C09": {
         "engine": "fault",
         "technique": "runtime fault injection at every numbered write/fsync call (before / after the device effect) with online oracles and recovery of the resulting device images in fresh processes",
-        "level_text": "Five deterministic workloads; for each, every single I/O call of the faulted phase fails once before and once after taking effect (exhaustive singles), plus persistent failure from every (third, in quick) call on, seeded pairs, and per-class bursts of 1-3 failures (journal/data/marker/metadata writes, fsync). Per plan: writes are never refused, every get equals the model, flush()==Ok implies the durable prefix recovers to exactly the model, after every flush attempt both the durable prefix and the file as it stands recover (fresh process) to per-key states within [last acknowledged, latest], after faults stop flush succeeds (after an indeterminate failure: after reopening in a new process) and the space partition is intact.",
-        "level_note": "Trusted: H1 decision hook and trace, the crash model for the durable prefix, single-writer model of the workload. Faults on the synchronous path only; the io_uring error branch is not injected here.",
+        "level_text": "Five deterministic workloads; for each, every single I/O call of the faulted phase fails once before and once after taking effect (exhaustive singles), plus persistent failure from every (third, in quick) call on, seeded pairs, and per-class bursts of 1-3 failures (journal/data/marker/metadata writes, fsync); on the io_uring pass additionally every io_uring_enter call fails once with EINTR, three times in a row with EINTR, once with EIO, and EINTR combined with a failed SQE. Per plan: writes are never refused, every get equals the model, flush()==Ok implies the durable prefix recovers to exactly the model, after every flush attempt both the durable prefix and the file as it stands recover (fresh process) to per-key states within [last acknowledged, latest], after faults stop flush succeeds (after an indeterminate failure: after reopening in a new process) and the space partition is intact.",
+        "level_note": "Trusted: H1 decision hook and trace, the crash model for the durable prefix, single-writer model of the workload. Two passes: the synchronous path (before/after semantics exact) and the io_uring path, where a failed SQE is completed by the kernel with EBADF (never 'after') and io_uring_enter is made to fail with EINTR (must be retried) or EIO (indeterminate outcome, judged after reopening in a fresh process); the second pass also follows every buffer handed to the kernel (queued / completion reaped / reference dropped) and fails if the I/O layer drops one that is still in flight.",
     },
     "C18": {
         "engine": "live",
         "technique": "runtime stress under a watchdog with a stall signature (per-thread CPU sampling + backtrace) as the deadlock / lost-wake-up detector",
-        "level_text": "Contention scenarios, each in its own process: concurrent flush() callers with writers/readers/scanners on hot keys and delays injected at one flusher phase per run (while it holds the device guard / retirement mutex); flush racing drop with the TTL sweeper at 1 ms holding references; device filled beyond capacity, then emptied; persistent I/O failure followed by drop (final-flush retry limit). Every call, flush and drop must return; pending work must be zero after a quiescent successful flush. A run that exceeds 90 s is a violation only with the stall signature. This detects deadlocks and lost wake-ups in the schedules produced; it cannot prove termination.",
-        "level_note": "Trusted: the stall signature (no thread of the child consumed CPU during 2 s and none runnable). Slow-but-progressing runs are reported inconclusive.",
+        "level_text": "Contention scenarios, each in its own process: concurrent flush() callers with writers/readers/scanners on hot keys and delays injected at one flusher phase per run (while it holds the device guard / retirement mutex); flush racing drop with the TTL sweeper at 1 ms holding references; device filled beyond capacity, then emptied; persistent I/O failure followed by drop (final-flush retry limit); failed record writes racing retirements; mid-call disturbances (at the scheduling points inside increment / CAS / patch / insert-if-absent / update_ttl / insert on a thread-private key the key is replaced by a generation that expires at once, expires, is deleted or replaced). Every call, flush and drop must return; pending work must be zero after a quiescent successful flush. A run that exceeds 90 s is a violation only with the stall signature; a busy retry loop is caught by a per-call CPU budget instead (a call that has burnt 20 s of its own thread's CPU time without returning - CPU time does not grow with machine load). This detects deadlocks and lost wake-ups in the schedules produced; it cannot prove termination.",
+        "level_note": "Trusted: the stall signature (no thread of the child consumed CPU during 2 s and none runnable) and the per-thread CPU clock. Slow-but-progressing runs are reported inconclusive.",
     },
     "C19": {
         "engine": "live(wb)",
         "technique": "runtime monitoring of pending-work counters and the device trace after the last call, no explicit flush; recovery of the durable prefix; independent decode",
-        "level_text": "Stores built with 1..8 shards/workers; bursts that touch every shard (occupancy read back and reported), buffer-filling bursts (>=1024 entries per shard), overwrites/deletes of durable keys (retirement half), busy neighbours. Without any flush the pending counters must reach zero, every accepted write must own an extent, the durable prefix must recover to exactly the accepted state, superseded generations must be retired, the journal clear and the data area exactly partitioned; time-to-durable is reported (observed: ~0.1-0.2 s).",
+        "level_text": "Stores built with 1..8 shards/workers; bursts that touch every shard (occupancy read back and reported), buffer-filling bursts (>=1024 entries per shard), overwrites/deletes of durable keys (retirement half), busy neighbours, TTL keys removed by the sweeper only, retirements deferred by parked readers and then left to the periodic coordinator alone. Without any flush the pending counters must reach zero, every accepted write must own an extent, the durable prefix must recover to exactly the accepted state, superseded generations must be retired, the journal clear and the data area exactly partitioned; time-to-durable is reported (observed: ~0.1-0.2 s).",
         "level_note": "Trusted: H4 pending-work accessor, H1 trace. A real-time bound cannot be a hard verdict on a shared machine: the failing condition is 10 s without drain plus 5 s of device inactivity.",
     },
     "C07": {
@@ -137,13 +137,13 @@ TEXT = {
     "C12": {
         "engine": "model",
         "technique": "runtime monitor of assigned timestamps (read back through an accessor) over mixed explicit/automatic programs incl. extreme values, across flush and reopen",
-        "level_text": "After every accepted automatically timestamped call the assigned timestamp is read back and must exceed the key's previous generation, every explicit timestamp accepted for the key since open, the timestamp recovered from disk, and the current (virtual) time; an automatic call refused as older on a key the application never pinned is a violation; an explicit timestamp carried only by failing calls must never be reached by later automatic ones. One known finding (clock-shard saturation by near-max explicit timestamps) is recorded.",
+        "level_text": "After every accepted automatically timestamped call the assigned timestamp is read back and must exceed the key's previous generation, every explicit timestamp accepted for the key since open, the timestamp recovered from disk, and the current (virtual) time; an automatic call refused as older on a key the application never pinned is a violation; an explicit timestamp carried only by failing calls must never be reached by later automatic ones. Timestamps of expired newest generations that recovery reads (and then drops) count as recovered from disk; a third of the timestamp/TTL programs begin with a scripted chain (future explicit timestamp + short TTL, expiry, clean reopen, automatic calls on those keys). One known finding (clock-shard saturation by near-max explicit timestamps) is recorded.",
         "level_note": _MODEL_NOTE,
     },
     "C13": {
         "engine": "model",
         "technique": "runtime differential monitoring of len()/memory_usage() after every call, with memory limits (sequential part)",
-        "level_text": "Memory-biased programs with limits admitting only some writes: after every call memory_usage() must equal the sum over live keys of (measured overhead + key + value), len() the number of live keys, usage never above the limit, refused writes change nothing (same record objects), and draining every key returns usage to zero; across flush and recovery. Concurrent part: 8-16 creators/growers/shrinkers/deleters/incrementers against a limit admitting only some of them, with a monitor thread sampling memory_usage() continuously and a deterministic probe reading it while several writers are parked between reservation and publish (hook point mem.reserved): usage <= limit at every sample, equal-sized records never exceed floor(limit/size) live keys, refused writes leave the key as it was, exact equality and zero-after-drain at quiescence. Same-key races (the linearizability engine's histories: concurrent upserts / CAS / increments / deletes of one key with different value sizes) are followed by an exact quiescent comparison of memory_usage() with the live records and a drain to zero.",
+        "level_text": "Memory-biased programs with limits admitting only some writes: after every call memory_usage() must equal the sum over live keys of (measured overhead + key + value), len() the number of live keys, usage never above the limit, refused writes change nothing (same record objects), and draining every key returns usage to zero; across flush and recovery; every store recovered from an enumerated crash image (crash engine) must account exactly the recovered keys as well. Concurrent part: 8-16 creators/growers/shrinkers/deleters/incrementers against a limit admitting only some of them, with a monitor thread sampling memory_usage() continuously and a deterministic probe reading it while several writers are parked between reservation and publish (hook point mem.reserved): usage <= limit at every sample, equal-sized records never exceed floor(limit/size) live keys, refused writes leave the key as it was, exact equality and zero-after-drain at quiescence. Same-key races (the linearizability engine's histories: concurrent upserts / CAS / increments / deletes of one key with different value sizes) are followed by an exact quiescent comparison of memory_usage() with the live records and a drain to zero.",
         "level_note": _MODEL_NOTE,
     },
     "C14": {
@@ -161,7 +161,7 @@ TEXT = {
     "C06": {
         "engine": "fsm",
         "technique": "runtime differential monitor against a bitmap reference model (exhaustive state x call enumeration on tiny devices, seeded random sequences)",
-        "level_text": "Every allocate/release call is executed on the real FreeSpaceManager and on a bitmap model; results, totals, run count, largest run, fragmentation and both internal views are compared after every call. All reachable (state, call) pairs are enumerated for devices of 3..6 (quick) / 3..8 (thorough) data blocks over an alphabet that includes reserved, out-of-range and overflowing ranges; larger devices are covered by long random sequences. Exploration, exhaustive only within the stated device bound.",
+        "level_text": "Every allocate/release call is executed on the real FreeSpaceManager and on a bitmap model; results, totals, run count, largest run, fragmentation and both internal views are compared after every call. All reachable (state, call) pairs are enumerated for devices of 3..6 (quick) / 3..8 (thorough) data blocks, and for devices whose size is not a whole number of blocks (trailing partial block out of bounds), over an alphabet that includes reserved, out-of-range and overflowing ranges; larger devices are covered by long random sequences. Exploration, exhaustive only within the stated device bound.",
         "level_note": "Trusted: the bitmap model (40 lines) and the doc-comment fragmentation formula. Allocation policy is not asserted. Devices beyond the bound are sampled, not enumerated.",
     },
 }
